@@ -1,12 +1,266 @@
 /-
-  Driver/OpsConv.lean — driver ops of the "Conv" unit (stub: serves nothing yet).
-  Interface: return `none` for requests this unit does not serve, `some reply` otherwise.
+  Driver/OpsConv.lean — driver ops of the "Conv" unit (property C17): `conv_*`.
+
+  Numeric ops (`prec = f64 | f32`): the executable model of SmoothModel/Convert.lean (plus
+  `SO3.ofQuat`, `rot_x/y/z`, `C1.*`) evaluated on the harness' inputs; paired ops
+  `conv_p1_<op>` (SE_K_3<1> result ++ SE3 result) and `conv_p2_<op>` (SE_K_3<2> result ++
+  Galilei result at τ = 0 / s = 0) on the SAME inputs.
+
+  Audit ops (`prec = f64a | f32a`, names `conv_a_*`): the implementation's inputs and outputs are
+  converted to exact rationals and the defining relation is evaluated on exact rotation /
+  homogeneous matrices; replies are error numbers as f64 words.
 -/
 import SmoothModel
+import SmoothModel.Convert
 import Driver.Ops
+import Driver.Audit
+
+open Scalar Lin Oracle
 
 namespace Drv
+namespace ConvOps
 
-def runConv (_op _grp _prec : String) (_args : Array String) : Option String := none
+variable {α : Type} [Scalar α]
+
+def sc (x : Array α) (i : Nat) : α := x.getD i (nat 0)
+
+def axisOf (op : String) : Fin 3 :=
+  if op.endsWith "_y" then 1 else if op.endsWith "_z" then 2 else 0
+
+def rotAxis (i : Fin 3) (t : α) : Vec α 4 :=
+  match i with
+  | 0 => SO3.rot_x t
+  | 1 => SO3.rot_y t
+  | 2 => SO3.rot_z t
+
+/-- LieGroupBase op of a model on flat inputs (the subset exercised by the paired ops) -/
+@[specialize] def pairHalf (G : LieModel α) (op : String) (gs : List (Vec α G.rep)) (ts : List (Vec α G.dof)) :
+    Except String (Array α) :=
+  match op, gs, ts with
+  | "identity", [], [] => .ok (toArray G.identity)
+  | "matrix", [g], [] => .ok (matToArray (G.matrix g))
+  | "compose", [a, b], [] => .ok (toArray (G.composition a b))
+  | "inverse", [g], [] => .ok (toArray (G.inverse g))
+  | "log", [g], [] => .ok (toArray (G.log g))
+  | "Ad", [g], [] => .ok (matToArray (G.Ad g))
+  | "exp", [], [a] => .ok (toArray (G.exp a))
+  | "hat", [], [a] => .ok (matToArray (G.hat a))
+  | "ad", [], [a] => .ok (matToArray (G.ad a))
+  | "dr_exp", [], [a] => .ok (matToArray (G.dr_exp a))
+  | "dr_expinv", [], [a] => .ok (matToArray (G.dr_expinv a))
+  | _, _, _ => .error s!"pair-op {op}"
+
+def isTangentOp (op : String) : Bool :=
+  op == "exp" || op == "hat" || op == "ad" || op == "dr_exp" || op == "dr_expinv"
+
+def nGroupArgs (op : String) : Nat :=
+  if op == "identity" then 0 else if op == "compose" then 2 else if isTangentOp op then 0 else 1
+
+/-- `conv_p1_<op>`: inputs are SE_K_3<1> coefficients / tangents; reply = SEK3 1 result ++ SE3 result -/
+@[specialize] def pair1 (op : String) (x : Array α) : Except String (Array α) := do
+  let S : LieModel α := SEK3.model 1
+  let E : LieModel α := SE3.model
+  let ng := nGroupArgs op
+  let nt := if isTangentOp op then 1 else 0
+  need x (ng * 7 + nt * 6)
+  let gsS : List (Vec α S.rep) := (List.range ng).map (fun k => ofArray _ x (7 * k))
+  let tsS : List (Vec α S.dof) := (List.range nt).map (fun k => ofArray _ x (6 * k))
+  let gsE : List (Vec α E.rep) := (List.range ng).map (fun k => Conv.sek1_to_se3 (ofArray _ x (7 * k)))
+  let tsE : List (Vec α E.dof) := (List.range nt).map (fun k => Conv.sek1T_to_se3 (ofArray _ x (6 * k)))
+  let a ← pairHalf S op gsS tsS
+  let b ← pairHalf E op gsE tsE
+  return a ++ b
+
+/-- `conv_p2_<op>`: inputs are SE_K_3<2> coefficients / tangents; the Galilei half is evaluated on
+    their images under `(p1,p2,q) ↦ (v,p,0,q)` / `(v1,v2,w) ↦ (b,q,0,w)` -/
+@[specialize] def pair2 (op : String) (x : Array α) : Except String (Array α) := do
+  let S : LieModel α := SEK3.model 2
+  let E : LieModel α := Galilei.model
+  let ng := nGroupArgs op
+  let nt := if isTangentOp op then 1 else 0
+  need x (ng * 10 + nt * 9)
+  let gsS : List (Vec α S.rep) := (List.range ng).map (fun k => ofArray _ x (10 * k))
+  let tsS : List (Vec α S.dof) := (List.range nt).map (fun k => ofArray _ x (9 * k))
+  let gsE : List (Vec α E.rep) := (List.range ng).map (fun k => memoV (Conv.sek2_to_gal (ofArray _ x (10 * k))))
+  let tsE : List (Vec α E.dof) := (List.range nt).map (fun k => memoV (Conv.sek2T_to_gal (ofArray _ x (9 * k))))
+  let a ← pairHalf S op gsS tsS
+  let b ← pairHalf E op gsE tsE
+  return a ++ b
+
+@[specialize] def run (op : String) (x : Array α) : Option (Except String (Array α)) :=
+  if op.startsWith "conv_p1_" then some (pair1 (op.drop 8).toString x)
+  else if op.startsWith "conv_p2_" then some (pair2 (op.drop 8).toString x)
+  else match op with
+  | "conv_so2_ctor" => some (do need x 2; return toArray (Conv.so2OfCoeffs (sc x 0) (sc x 1)))
+  | "conv_so2_angle_ctor" => some (do need x 1; return toArray (Conv.so2OfAngle (sc x 0)))
+  | "conv_so2_complex_ctor" => some (do need x 2; return toArray (Conv.so2OfComplex (sc x 0) (sc x 1)))
+  | "conv_angle" => some (do need x 2; return #[Conv.angle (ofArray 2 x)])
+  | "conv_angle_cw" => some (do need x 2; return #[Conv.angle_cw (ofArray 2 x)])
+  | "conv_angle_ccw" => some (do need x 2; return #[Conv.angle_ccw (ofArray 2 x)])
+  | "conv_u1" => some (do need x 2; return toArray (Conv.u1 (ofArray 2 x)))
+  | "conv_unit_complex" => some (do need x 2; return toArray (Conv.u1 (ofArray 2 x)))
+  | "conv_lift_so3" => some (do need x 2; return toArray (Conv.lift_so3 (ofArray 2 x)))
+  | "conv_project_so2" => some (do need x 4; return toArray (Conv.project_so2 (ofArray 4 x)))
+  | "conv_lift_se3" => some (do need x 4; return toArray (Conv.lift_se3 (ofArray 4 x)))
+  | "conv_project_se2" => some (do need x 7; return toArray (Conv.project_se2 (ofArray 7 x)))
+  | "conv_lift_project_so2" =>
+    some (do need x 2; return toArray (Conv.project_so2 (memoV (Conv.lift_so3 (ofArray 2 x)))))
+  | "conv_lift_project_se2" =>
+    some (do need x 4; return toArray (Conv.project_se2 (memoV (Conv.lift_se3 (ofArray 4 x)))))
+  | "conv_lift_hom_so2" =>
+    -- lift(g1 g2) ++ lift(g1) lift(g2)
+    some (do
+      need x 4
+      let g1 : Vec α 2 := ofArray 2 x; let g2 : Vec α 2 := ofArray 2 x 2
+      let l12 := Conv.lift_so3 (memoV (SO2.composition g1 g2))
+      let l1l2 := SO3.composition (memoV (Conv.lift_so3 g1)) (memoV (Conv.lift_so3 g2))
+      return toArray l12 ++ toArray l1l2)
+  | "conv_lift_hom_se2" =>
+    some (do
+      need x 8
+      let g1 : Vec α 4 := ofArray 4 x; let g2 : Vec α 4 := ofArray 4 x 4
+      let l12 := Conv.lift_se3 (memoV (SE2.composition g1 g2))
+      let l1l2 := SE3.composition (memoV (Conv.lift_se3 g1)) (memoV (Conv.lift_se3 g2))
+      return toArray l12 ++ toArray l1l2)
+  | "conv_c1_scaling" => some (do need x 2; return #[C1.scaling (ofArray 2 x)])
+  | "conv_c1_angle" => some (do need x 2; return #[C1.angle (ofArray 2 x)])
+  | "conv_c1_so2" => some (do need x 2; return toArray (Conv.c1_so2 (ofArray 2 x)))
+  | "conv_c1_c1" => some (do need x 2; return toArray (Conv.c1 (ofArray 2 x)))
+  | "conv_c1_complex_ctor" => some (do need x 2; return toArray (Conv.c1OfComplex (sc x 0) (sc x 1)))
+  | "conv_c1_sa_ctor" => some (do need x 2; return toArray (C1.ofScalingAngle (sc x 0) (sc x 1)))
+  | "conv_c1_refactor" =>
+    -- C1(g.scaling(), g.so2().angle())
+    some (do
+      need x 2
+      let g : Vec α 2 := ofArray 2 x
+      return toArray (C1.ofScalingAngle (C1.scaling g) (Conv.angle (memoV (Conv.c1_so2 g)))))
+  | "conv_so3_quat_ctor" => some (do need x 4; return toArray (SO3.ofQuat (ofArray 4 x)))
+  | "conv_so3_quat" => some (do need x 4; return toArray (Conv.quatWXYZ (ofArray 4 x)))
+  | "conv_rot_x" | "conv_rot_y" | "conv_rot_z" =>
+    some (do need x 1; return toArray (rotAxis (axisOf op) (sc x 0)))
+  | "conv_rot_exp_x" | "conv_rot_exp_y" | "conv_rot_exp_z" =>
+    some (do
+      need x 1
+      let i := axisOf op
+      return toArray (rotAxis i (sc x 0)) ++ toArray (SO3.exp (Conv.axisTangent i (sc x 0))))
+  | "conv_of_euler" => some (do need x 3; return toArray (Conv.ofEuler (ofArray 3 x)))
+  | "conv_se2_isometry" => some (do need x 4; return matToArray (Conv.se2_isometry (ofArray 4 x)))
+  | "conv_se2_iso_ctor" => some (do need x 9; return toArray (Conv.se2_ofIsometry (matOfArray 3 3 x)))
+  | "conv_se2_iso_rt" =>
+    some (do need x 4; return toArray (Conv.se2_ofIsometry (memoM (Conv.se2_isometry (ofArray 4 x)))))
+  | "conv_se3_isometry" => some (do need x 7; return matToArray (Conv.se3_isometry (ofArray 7 x)))
+  | "conv_se3_iso_glue" =>
+    some (do need x 20; return toArray (Conv.se3_ofIsometryGlue (matOfArray 4 4 x) (ofArray 4 x 16)))
+  | _ => none
+
+/-! ### audit ops on exact rationals -/
+
+def m3 (q : Vec Rat 4) : RMat := RMat.ofMat (SO3.matrix q)
+def m2 (g : Vec Rat 2) : RMat := RMat.ofMat (SO2.matrix g)
+
+def sqnErr (v : Array Rat) (off n : Nat) : Float :=
+  let s := (List.range n).foldl (fun s i => s + (v.getD (off + i) 0) ^ 2) (0 : Rat)
+  ratToFloat ((s - 1).abs)
+
+/-- blockDiag(R2, 1) -/
+def liftM (R : RMat) : RMat :=
+  RMat.ofFn 3 3 (fun i j => if i < 2 ∧ j < 2 then R.get i j else if i == j then 1 else 0)
+
+/-- SE2 homogeneous matrix embedded in SE3's: rotation about z, translation (x, y, 0) -/
+def liftSE2M (M : RMat) : RMat :=
+  RMat.ofFn 4 4 (fun i j =>
+    if i < 2 ∧ j < 2 then M.get i j
+    else if i < 2 ∧ j == 3 then M.get i 2
+    else if i == j then 1 else 0)
+
+/-- rotation matrix of a NON-normalised quaternion `(x y z w)`: the homogeneous formula divided by
+    the squared norm (independent of `SO3.matrix`, which assumes unit norm) -/
+def rotHom (q : Array Rat) (off : Nat) : RMat :=
+  let x := q.getD off 0; let y := q.getD (off + 1) 0; let z := q.getD (off + 2) 0; let w := q.getD (off + 3) 0
+  let s := x * x + y * y + z * z + w * w
+  let a : Array Rat := #[w*w + x*x - y*y - z*z, 2 * (x*y - w*z), 2 * (x*z + w*y),
+                         2 * (x*y + w*z), w*w - x*x + y*y - z*z, 2 * (y*z - w*x),
+                         2 * (x*z - w*y), 2 * (y*z + w*x), w*w - x*x - y*y + z*z]
+  ⟨3, 3, a.map (· / (if s == 0 then 1 else s))⟩
+
+def audit (op : String) (x : Array Rat) : Except String (Array Float) :=
+  match op with
+  | "conv_a_quat" =>
+    -- raw quaternion (4), SO3(quat) coefficients (4): same rotation, unit result
+    .ok #[relErr (m3 (vecR x 4)) (rotHom x 0), sqnErr x 4 4]
+  | "conv_a_rot3" =>
+    -- two quaternions: same rotation?  + unit-norm defects
+    .ok #[relErr (m3 (vecR x)) (m3 (vecR x 4)), sqnErr x 0 4, sqnErr x 4 4]
+  | "conv_a_rot2" =>
+    .ok #[relErr (m2 (vecR x)) (m2 (vecR x 2)), sqnErr x 0 2, sqnErr x 2 2]
+  | "conv_a_lift" =>
+    -- g (2), lift_so3 g (4): matrix(lift g) = blockDiag(matrix g, 1); unit norm of the result
+    .ok #[relErr (m3 (vecR x 2)) (liftM (m2 (vecR x))), sqnErr x 2 4]
+  | "conv_a_project" =>
+    -- q (4) a rotation about z, project_so2 q (2): blockDiag(matrix(project q), 1) = matrix q
+    .ok #[relErr (liftM (m2 (vecR x 4))) (m3 (vecR x)), sqnErr x 4 2]
+  | "conv_a_se3" =>
+    let A := RMat.ofMat (SE3.matrix (vecR (n := 7) x)); let B := RMat.ofMat (SE3.matrix (vecR (n := 7) x 7))
+    .ok #[relErr A B, sqnErr x 3 4, sqnErr x 10 4]
+  | "conv_a_se2" =>
+    let A := RMat.ofMat (SE2.matrix (vecR (n := 4) x)); let B := RMat.ofMat (SE2.matrix (vecR (n := 4) x 4))
+    .ok #[relErr A B, sqnErr x 2 2, sqnErr x 6 2]
+  | "conv_a_lift_se" =>
+    -- se2 (4), lift_se3 (7)
+    let A := RMat.ofMat (SE3.matrix (vecR (n := 7) x 4)); let B := liftSE2M (RMat.ofMat (SE2.matrix (vecR (n := 4) x)))
+    .ok #[relErr A B, sqnErr x 7 4]
+  | "conv_a_project_se" =>
+    -- se3 (7) planar, project_se2 (4)
+    let A := liftSE2M (RMat.ofMat (SE2.matrix (vecR (n := 4) x 7))); let B := RMat.ofMat (SE3.matrix (vecR (n := 7) x))
+    .ok #[relErr A B, sqnErr x 9 2]
+  | "conv_a_c1" =>
+    -- g (2), scaling (1), so2 (2): matrix g = scaling • matrix (so2 g)
+    let s := x.getD 2 0
+    .ok #[relErr ((RMat.ofMat (C1.matrix (vecR (n := 2) x)))) ((m2 (vecR x 3)).smul s), sqnErr x 3 2]
+  | "conv_a_se2_iso" =>
+    -- g (4), T (9): the isometry's matrix is the group matrix
+    .ok #[relErr ⟨3, 3, x.extract 4 13⟩ (RMat.ofMat (SE2.matrix (vecR (n := 4) x)))]
+  | "conv_a_se3_iso" =>
+    .ok #[relErr ⟨4, 4, x.extract 7 23⟩ (RMat.ofMat (SE3.matrix (vecR (n := 7) x)))]
+  | "conv_a_iso_se2" =>
+    -- T (9), g (4): the constructed element has the isometry's matrix
+    .ok #[relErr (RMat.ofMat (SE2.matrix (vecR (n := 4) x 9))) ⟨3, 3, x.extract 0 9⟩, sqnErr x 11 2]
+  | "conv_a_iso_se3" =>
+    .ok #[relErr (RMat.ofMat (SE3.matrix (vecR (n := 7) x 16))) ⟨4, 4, x.extract 0 16⟩, sqnErr x 19 4]
+  | "conv_a_rotexp_x" | "conv_a_rotexp_y" | "conv_a_rotexp_z" =>
+    -- t, q (4): matrix q = matrix exponential of hat (t e_i) (series oracle in 320-bit fixed point)
+    let i := axisOf op
+    let a : Vec Rat 3 := Conv.axisTangent i (x.getD 0 0)
+    .ok #[relErr (m3 (vecR x 1)) (matExpR (RMat.ofMat (SO3.hat a))), sqnErr x 1 4]
+  | "conv_a_p1" =>
+    -- SE_K_3<1> element (7), SE3 element (7): same homogeneous matrix
+    let A := RMat.ofMat (SEK3.matrix 1 (vecR (n := 4 + 3 * 1) x)); let B := RMat.ofMat (SE3.matrix (vecR (n := 7) x 7))
+    .ok #[relErr A B]
+  | "conv_a_p2" =>
+    -- SE_K_3<2> element (10), Galilei element (11): same 5×5 matrix and τ = 0
+    let A := RMat.ofMat (SEK3.matrix 2 (vecR (n := 4 + 3 * 2) x)); let B := RMat.ofMat (Galilei.matrix (vecR (n := 11) x 10))
+    .ok #[relErr A B, ratToFloat ((x.getD 16 0).abs)]
+  | _ => .error s!"unknown-audit-op {op}"
+
+end ConvOps
+
+def runConv (op _grp prec : String) (args : Array String) : Option String :=
+  if !op.startsWith "conv_" then none
+  else if prec == "f64a" || prec == "f32a" then
+    if !allFinite prec args then some "NONFINITE" else
+    match ConvOps.audit op (ratWords prec args) with
+    | .ok out => some (" ".intercalate (out.toList.map fhex))
+    | .error e => some ("ERR " ++ e)
+  else if prec == "f64" then
+    match ConvOps.run (α := Float) op (args.map Bits.ofHex) with
+    | some (.ok out) => some (" ".intercalate (out.toList.map Bits.toHex))
+    | some (.error e) => some ("ERR " ++ e)
+    | none => some ("ERR unknown-op " ++ op)
+  else if prec == "f32" then
+    match ConvOps.run (α := Float32) op (args.map Bits.ofHex) with
+    | some (.ok out) => some (" ".intercalate (out.toList.map Bits.toHex))
+    | some (.error e) => some ("ERR " ++ e)
+    | none => some ("ERR unknown-op " ++ op)
+  else some "ERR bad-prec"
 
 end Drv
